@@ -292,8 +292,8 @@ pub fn check_dec(be: Backend, r: &Ref, ty: &str, b: &[u8], single_fault: bool, g
     match got {
         RDec::Crash(m) => {
             // C++: two builds printing different lines is told apart from a process that died
-            let kind = if m.starts_with("sanitizer build and NDEBUG build disagree") { "crash:builds-disagree" } else { "crash" };
-            res.fails.push(rf("decode", kind, m.clone()));
+            let kind = crash_kind(m);
+            res.fails.push(rf("decode", &kind, m.clone()));
             res.outcome = "crash".into();
         }
         RDec::Err { class, .. } if class == "NoDeclaredFromBytes" => {
@@ -482,6 +482,19 @@ pub fn java_matching_child_malformed(r: &Ref, asked: &str, rv: &Value, b: &[u8])
         let mut e3 = Events::new();
         r.decode(x, b, true, &mut e3).is_err()
     })
+}
+
+/// Outcome class of a target that did not answer: what killed it, as far as the message tells.
+pub fn crash_kind(m: &str) -> String {
+    if m.starts_with("sanitizer build and NDEBUG build disagree") {
+        "crash:builds-disagree".into()
+    } else if m.contains("division by zero") {
+        "crash:division-by-zero".into()
+    } else if m.contains("Assertion `") {
+        "crash:assertion".into()
+    } else {
+        "crash".into()
+    }
 }
 
 /// The class name the Java backend gives a declaration (backends/java/mod.rs, Class::name_from_id).
